@@ -41,6 +41,10 @@ func (d *While) Evaluation(
 				return err
 			}
 
+			if nextT == nil {
+				return nil
+			}
+
 			if nextT.IsTargetIdentifier("in") {
 				nextT, err := p.Read()
 				if err != nil {
